@@ -211,6 +211,11 @@ def tilt_rows(h):
                 if rep == 'angles':
                     for k in range(3):
                         h.check(f'{tag}[{k}]', h.angle_eq(t.Q[i, k], s[k]))
+                elif use_mag:
+                    # KF-C07-tilt-signed-zero: heading exactly 0 / 180 degrees (b_y == 0, i.e. m_y a_z == m_z a_y): the two copies
+                    # form -b_y with zeros of opposite sign, arctan2(+-0, b_x < 0) = +-pi, and the rows come out antipodal
+                    kf = h.kf('KF-C07-tilt-signed-zero', h.eq(mag[i, 1] * acc[i, 2], mag[i, 2] * acc[i, 1]))
+                    h.check(tag + ' (outside KF-C07-tilt-signed-zero)', kf | h.eq(t.Q[i], s))
                 else:
                     h.check(tag, h.eq(t.Q[i], s))
     one = Tilt(acc[0].copy(), mag[0].copy())
